@@ -14,7 +14,16 @@ ASSUMPTIONS = [
  "check-direct-trust / check-trust-anchor-CA equivalence: <= 2 anchors with DNs <= 3 bytes, key parts <= 3 bytes, pairwise distinct DN hashes, toy 2-byte DN hash class, validation state with err == 0; signature verifiers are deterministic stubs keyed by the anchor key",
  "do-rsa-vrfy / do-ecdsa-vrfy: verifiers are recording stubs returning any verdict / any recovered hash; minimum RSA key size is checked by T0 code, not by these words (outside)",
 ]
-MUTANTS = []
+MUTANTS = [
+ "CAUGHT seeded/C04-eqnocase-mask-0x5f (case folding by masking 0x5F): t0-x509min-match-server-name",
+ "CAUGHT seeded/C05-copy-name-san-off-by-one: t0-x509min-copy-name-SAN",
+ "CAUGHT match-server-name accepts \"*\" not followed by a dot: t0-x509min-match-server-name",
+ "CAUGHT check-validity-range `vs > nas` -> `>=`: t0-x509min-check-validity-range-fixed, -clock",
+ "CAUGHT copy-name-element `len < ne->len` -> `<=`: t0-x509min-copy-name-element",
+ "CAUGHT verify_signature compares hash_len - 1 bytes of the recovered hash: t0-x509min-do-rsa-vrfy",
+ "CAUGHT check-direct-trust frees the dynamic anchor only when it matched: t0-x509min-check-direct-trust-dynamic-TA1-K2",
+ "CAUGHT check-trust-anchor-CA dynamic path skips the CA-flag / DN-hash test (verify_signature only): t0-x509min-check-trust-anchor-CA-dynamic-TA1-K3, -TA2-K3",
+]
 
 
 def queries():
@@ -37,7 +46,7 @@ def queries():
         qs.append(Q("t0-x509min-%s" % nm, "C04_t0_x509min.c", units=[], defs=["-DMODE=%d" % m] + inc, unwind=unw, timeout=200,
                     desc="native %s of src/x509/x509_minimal.c: %s" % (nm, d)))
     for m, nm in ((0, "check-direct-trust"), (1, "check-trust-anchor-CA")):
-      for nta, kl, tier in ((1, 2, "quick"), (2, 2, "quick"), (2, 3, "thorough")) if m == 0 else ((1, 3, "quick"), (2, 3, "quick")):
-        qs.append(Q("t0-x509min-%s-dynamic-TA%d-K%d" % (nm, nta, kl), "C04_t0_trust.c", units=[], defs=["-DMODE=%d" % m, "-DNTA=%d" % nta, "-DKL=%d" % kl] + inc, unwind=8, timeout=300, tier=tier,
+      for nta, kl, tier in ((1, 2, "quick"), (2, 2, "thorough"), (2, 3, "thorough")) if m == 0 else ((1, 3, "quick"), (2, 3, "quick")):
+        qs.append(Q("t0-x509min-%s-dynamic-TA%d-K%d" % (nm, nta, kl), "C04_t0_trust.c", units=[], defs=["-DMODE=%d" % m, "-DNTA=%d" % nta, "-DKL=%d" % kl] + inc, unwind=2 * kl + 2, timeout=300, tier=tier,
                     desc="native %s of src/x509/x509_minimal.c: dynamic trust-anchor lookup (callback returning the table's anchor for the same hashed DN) gives the same verdict as the static table (<= 2 anchors, RSA/EC keys, distinct DN hashes); lookup arguments; free callback once per returned anchor" % nm))
     return qs
